@@ -30,7 +30,9 @@ let parse_cfg (w : string) : config * bool =
     let codes = List.map ioh (split ';' retr) in
     ({ batchSize = nat_of_hex bs; batchBytes = n_of_hex bb; maxAttempts = nat_of_hex ma;
        async = (asy = "1"); wtopic = opt_n wt;
-       retriable = (fun e -> List.mem (int_of_n e) codes) }, det = "1")
+       (* the retriable classification is part of the SPEC (retriable_spec of Model/Writer.v);
+          the list the harness prints (what the code itself says) is informational only *)
+       retriable = (fun e -> ignore codes; retriable_spec e) }, det = "1")
   | _ -> failwith ("bad cfg " ^ w)
 
 let simple_cfg bs bb asy =
@@ -187,6 +189,7 @@ let op_e2e ?(wire = false) (words : string list) : string =
     if not wire && not (c01_compl_holds cfg mcalls journal mcompl) then flag "C01_compl_holds";
     if not wire && !closed_ret && not (c01_compl_total_holds mcalls mcompl) then flag "C01_compl_total_holds";
     if not (c01_no_foreign_holds cfg mlog) then flag "C01_no_foreign_holds";
+    if not wire && not (no_early_giveup_holds cfg journal mcompl) then flag "no_early_giveup_holds";
     if not wire && not (c01_dups_holds cfg journal mlog) then flag "C01_dups_holds";
     (* the fake's log of each partition is what its applied attempts appended *)
     List.iter (fun (tp, ids) ->
@@ -365,6 +368,21 @@ let eval (op : string) (a : string list) : string =
      applied it and whether the complete answer was delivered, so the FULL set of history
      predicates applies (a cut answer = a lost acknowledgement) *)
   | "wcut", ws -> op_e2e ws
+  | "rtb", [e] -> if retriable_spec (n_of_hex e) then "1" else "0"
+  | "nwc", [ma; bs; bb; bt; rt; wt; acks; asy; balnil; codec; topic; lg; elg; nb] ->
+    let c = { wc_maxAttempts = z_of_hex ma; wc_batchSize = z_of_hex bs; wc_batchBytes = z_of_hex bb;
+              wc_batchTimeoutMs = z_of_hex bt; wc_readTimeoutMs = z_of_hex rt; wc_writeTimeoutMs = z_of_hex wt;
+              wc_requiredAcks = z_of_hex acks; wc_async = (asy = "1"); wc_balancerNil = (balnil = "1");
+              wc_codec = z_of_hex codec } in
+    let o = options_of_writer_config c in
+    let cfg = cfg_of_writer_config c None (fun _ -> false) in
+    if int_of_nat cfg.batchSize <> int_of_z (eff_batchSize o) || hex_of_n cfg.batchBytes <> hex_of_z (eff_batchBytes o)
+       || int_of_nat cfg.maxAttempts <> int_of_z (eff_maxAttempts o) || cfg.async <> c.wc_async then "SPECDIFF"
+    else String.concat ":" (List.map hex_of_z
+      [eff_batchSize o; eff_batchBytes o; eff_maxAttempts o; eff_batchTimeoutMs o; eff_backoffMinMs o;
+       eff_backoffMaxMs o; eff_readTimeoutMs o; eff_writeTimeoutMs o; acks_of_writer_config c])
+      ^ ":" ^ (if c.wc_async then "1" else "0") ^ ":" ^ (if c.wc_balancerNil then "rr" else "given")
+      ^ ":" ^ hex_of_z c.wc_codec ^ ":" ^ topic ^ ":" ^ lg ^ ":" ^ elg ^ ":" ^ nb
   | "pdl", [rt; wt] ->
     let o = { o_batchSize = Z0; o_batchBytes = Z0; o_maxAttempts = Z0; o_batchTimeoutMs = Z0;
               o_backoffMinMs = Z0; o_backoffMaxMs = Z0; o_readTimeoutMs = z_of_hex rt; o_writeTimeoutMs = z_of_hex wt } in
@@ -374,7 +392,7 @@ let eval (op : string) (a : string list) : string =
        (on a retry) at once: RUN the transition system with the reaction the model derives from the options *)
     let o = { o_batchSize = z_of_int 1; o_batchBytes = Z0; o_maxAttempts = z_of_int 3; o_batchTimeoutMs = Z0;
               o_backoffMinMs = Z0; o_backoffMaxMs = Z0; o_readTimeoutMs = z_of_hex rt; o_writeTimeoutMs = z_of_hex wt } in
-    let cfg = cfg_of_options o (asy = "1") (Some N0) (fun e -> int_of_n e = 1005) in
+    let cfg = cfg_of_options o (asy = "1") (Some N0) retriable_spec in
     let s = ref init in
     let ok = ref true in
     let st l = match step cfg !s l with Some s' -> s := s' | None -> ok := false in
